@@ -8,9 +8,6 @@ import LA.Base.Table
 import LA.Gen.Errno
 import LA.Gen.Arches
 import LA.Gen.Syscalls
-import LA.Gen.EventTypes
-import LA.Gen.RuleTables
-import LA.Gen.NormNames
 
 namespace LA.Tables
 open LA
@@ -48,12 +45,5 @@ def syscallNum (arch : Bytes) (name : Bytes) : Option Nat :=
   match sysTable arch with
   | none => none
   | some (_, _, nameTree, _) => nameTree.find (encode name)
-
-/-- `GetAuditEventType`: first matching case of the switch, else the default. -/
-def categoryIn : List (Nat × Nat × Nat) → Nat → Nat
-  | [], _ => LA.Gen.EventTypes.defaultCategory
-  | (lo, hi, c) :: rest, t => if lo ≤ t ∧ t ≤ hi then c else categoryIn rest t
-
-def category (t : Nat) : Nat := categoryIn LA.Gen.EventTypes.ranges t
 
 end LA.Tables
